@@ -399,6 +399,8 @@ def rule_g(ctx):
                    "a Result<_, SendError> awaited inside ports::* must be propagated or thrown, never discarded", [s])
 
 
+WITNESS = ['c11']  # doctest filters in /verif/witness (thorough tier)
+
 RULES = [
     ("C11.a", "no effect once terminated", rule_a),
     ("C11.b", "fatal errors set the flag; non-fatal do not", rule_b),
